@@ -28,6 +28,9 @@ type blockCfg struct {
 	Fine        bool     `json:"fine"`
 	Cancellable []string `json:"cancellable"`
 	Horizon     int      `json:"horizon"`
+	Recheck     bool     `json:"recheck"`
+	Blackbox    bool     `json:"blackbox"`
+	AllServed   bool     `json:"allserved"`
 }
 
 // newDelegate builds the real delegate: DefaultLimiter over a fixed limit and the simple strategy.
